@@ -55,3 +55,13 @@ def install(slices: bool = True, ints: bool = True) -> None:
         reg[slice.indices] = models.slice_indices
     if ints:
         reg[int] = model_int
+
+
+def use_real_floats() -> None:
+    """Model ``float`` as a mathematical real on every path (CrossHair otherwise also forks into an IEEE
+    bit-precise model whose int<->float conversions z3 cannot decide within the per-path budget).
+
+    Exact for ==/< between finite ints and floats: CPython compares them by exact numeric value.
+    """
+    bl = builtinslib
+    bl._PYTYPE_TO_WRAPPER_TYPE[float] = ((bl.RealBasedSymbolicFloat, 1.0),)
